@@ -539,13 +539,13 @@ Qed.
 
 (* ---- transpile_token ------------------------------------------------------------------------------------------------------ *)
 Theorem token_LT undict n t x :
-  tok_ok true undict t = true -> token_text undict t = TOk x -> LT (4 * n) (indent_str x n) (shape_token t).
+  tok_ok false undict t = true -> token_text undict t = TOk x -> LT (4 * n) (indent_str x n) (shape_token t).
 Proof.
   unfold tok_ok, token_text, shape_token. destruct t as [k v]. cbn [tk tv].
   destruct k; intros Hok H.
-  - (* STRING *)
-    inversion H; subst x. apply LT_line. apply gline_string. apply escape_strict.
-    cbn [negb orb] in Hok. apply negb_true_iff in Hok. exact Hok.
+  - (* STRING: any contents, any dictionary -- the re-escaping loop leaves no raw quote, newline or
+       carriage return outside a backslash pair *)
+    inversion H; subst x. apply LT_line. apply gline_string. apply escape_strict_all.
   - (* NUMBER *)
     inversion H; subst x. destruct (number_text_shape v Hok) as [p [Hp [-> | ->]]]; apply LT_line.
     + apply gline_rational. exact Hp.
